@@ -20,10 +20,10 @@ import (
 
 // Result is the outcome of evaluating one generated case against its oracle.
 type Result struct {
-	Class      string // generator class, for the coverage histogram
-	NonTrivial bool   // by the property's stated rule
-	Sig        string // violation signature (call site + input class); "" = held
-	Msg        string // human-readable description of the violation
+	Class      string   // generator class, for the coverage histogram
+	NonTrivial bool     // by the property's stated rule
+	Sig        string   // violation signature (call site + input class); "" = held
+	Msg        string   // human-readable description of the violation
 	Tags       []string // extra counters for the coverage record (generator classes, strategies)
 }
 
